@@ -58,6 +58,10 @@ Definition Sx (xs : list spec) (st : bstate) (t : spec) : Prop :=
 Section Closure.
 Variable W : world.
 Variable o : bopts.
+(* the closure theorem is about builds without an npm resolver: with one, an npm: specifier has no
+   entry until the resolver stage at the very end of the build (what that stage adds is decided per
+   case by the correspondence; the no-pending theorem covers it) *)
+Hypothesis Hnonpm : forall s r, class_of W s <> SNpm r.
 
 Definition TOk (xs : list spec) (st : bstate) (t : spec) : Prop :=
   Sx xs st t \/ (st_in_dyn st = false /\ has_key t (st_dyn st) = true).
@@ -235,25 +239,29 @@ Proof.
   assert (Hp : Grows st match class_of W s with
                  | SNode => (set_slot st s (BMod (node_module s))) <| st_has_node := true |>
                  | SPass => set_slot st s (BExternal false)
+                 | SNpm r => st <| st_npm := st_npm st ++ [{| ni_spec := s; ni_req := r; ni_range := range; ni_dyn := in_dyn |}] |>
                  | SBad => set_slot st s (BErr (BBadSpecifier s range))
                  | SUrl => queue_load st s range asset in_dyn root attr count
                  end /\
                has_key s (st_slots match class_of W s with
                  | SNode => (set_slot st s (BMod (node_module s))) <| st_has_node := true |>
                  | SPass => set_slot st s (BExternal false)
+                 | SNpm r => st <| st_npm := st_npm st ++ [{| ni_spec := s; ni_req := r; ni_range := range; ni_dyn := in_dyn |}] |>
                  | SBad => set_slot st s (BErr (BBadSpecifier s range))
                  | SUrl => queue_load st s range asset in_dyn root attr count
                  end) = true).
-  { destruct (class_of W s).
+  { destruct (class_of W s) eqn:Ec.
     - split; [apply grows_queue_load|]. unfold queue_load. cbn. rewrite has_key_set_assoc, N.eqb_refl. reflexivity.
     - split; [eapply grows_trans; [apply (grows_set_slot st s (BMod (node_module s)) (node_trivial st s))|apply grows_ext; reflexivity]|].
       cbn. rewrite has_key_set_assoc, N.eqb_refl. reflexivity.
     - split; [apply grows_set_slot; intros m E; discriminate | apply set_slot_has].
-    - split; [apply grows_set_slot; intros m E; discriminate | apply set_slot_has]. }
+    - split; [apply grows_set_slot; intros m E; discriminate | apply set_slot_has].
+    - exfalso. exact (Hnonpm s _ Ec). }
   assert (Hp' : Grows st (if has_key s (st_redirects st) then set_slot st s (BErr (BLoad s range 1))
                  else match class_of W s with
                  | SNode => (set_slot st s (BMod (node_module s))) <| st_has_node := true |>
                  | SPass => set_slot st s (BExternal false)
+                 | SNpm r => st <| st_npm := st_npm st ++ [{| ni_spec := s; ni_req := r; ni_range := range; ni_dyn := in_dyn |}] |>
                  | SBad => set_slot st s (BErr (BBadSpecifier s range))
                  | SUrl => queue_load st s range asset in_dyn root attr count
                  end) /\
@@ -261,6 +269,7 @@ Proof.
                  else match class_of W s with
                  | SNode => (set_slot st s (BMod (node_module s))) <| st_has_node := true |>
                  | SPass => set_slot st s (BExternal false)
+                 | SNpm r => st <| st_npm := st_npm st ++ [{| ni_spec := s; ni_req := r; ni_range := range; ni_dyn := in_dyn |}] |>
                  | SBad => set_slot st s (BErr (BBadSpecifier s range))
                  | SUrl => queue_load st s range asset in_dyn root attr count
                  end)) = true).
@@ -808,15 +817,25 @@ Proof.
   destruct (resolve_pending_cinv R _ _ _ HI2 HR) as [HI Hidle].
   assert (Hdyn : st_dyn st = []).
   { unfold idle in Hidle. destruct (st_pending st); [|discriminate]. destruct (st_dyn st); [reflexivity | discriminate]. }
-  assert (Tfin : forall t, TOk [] st t -> Sx [] st t).
-  { intros t [H|[_ H]]; [exact H|]. rewrite Hdyn in H. discriminate. }
+  set (new := no_slots (npm_resolve W (st_npm st))).
+  assert (Lift : forall t, Sx [] st t -> SettX (npm_fill (st_slots st) new) (st_redirects st) [] t).
+  { intros t H. unfold Sx in H. eapply settx_mono; [| | |exact H].
+    - intros k0 Hk. apply SX_slot. unfold has_key in *. destruct (lookup k0 (st_slots st)) as [v|] eqn:E; [|discriminate].
+      rewrite (npm_fill_keeps new (st_slots st) k0 v E). reflexivity.
+    - intros x [].
+    - intros a b Hab. exact Hab. }
+  assert (Tfin : forall t, TOk [] st t -> SettX (npm_fill (st_slots st) new) (st_redirects st) [] t).
+  { intros t [H|[_ H]]; [apply Lift; exact H|]. rewrite Hdyn in H. discriminate. }
   split; [|split].
   - intros r Hr. apply Tfin. apply (cv_req R st HI). apply in_or_app. left.
     unfold roots'. apply dedup_keep_first_In. exact Hr.
   - intros t Ht. apply Tfin. apply (cv_req R st HI). apply in_or_app. right. exact Ht.
-  - intros s m Hs. destruct (cv_mods R st HI s m Hs) as [M1 M2]. split.
-    + intros d t rg Hd Hsk Ht. apply Tfin. exact (M1 d Hd Hsk t rg Ht).
-    + intros td t rg Htd Hr. eapply M2; eassumption.
+  - intros s m Hs. apply npm_fill_lookup in Hs. destruct Hs as [Hs|Hin].
+    + destruct (cv_mods R st HI s m Hs) as [M1 M2]. split.
+      * intros d t rg Hd Hsk Ht. apply Tfin. exact (M1 d Hd Hsk t rg Ht).
+      * intros td t rg Htd Hr. apply Lift. eapply M2; eassumption.
+    + apply npm_resolve_shape in Hin. destruct Hin as [[s0 E]|[s0 [r0 [k0 E]]]]; [|discriminate].
+      inversion E; subst. split; [intros d t rg [] | intros td t rg Htd; discriminate].
 Qed.
 
 End Closure.
